@@ -59,6 +59,11 @@ func Predict(spec *gen.MsgSpec, flags uint, noMore bool, avail int) Pred {
 			n = int(v.Int64())
 		}
 	}
+	if noMore && spec.Blank == "\r" && avail == h {
+		// the blank line is a lone CR and the input ends right after it: whether "no more data" makes
+		// that CR a complete empty line is not fixed by the property
+		return Pred{Ret: -1, BodyLen: -1, Why: "model: lone-CR blank line at end of input, no prediction"}
+	}
 	if avail < need {
 		p := Pred{Ret: -1, BodyLen: -1, Why: fmt.Sprintf("header block incomplete (%d of %d bytes)", avail, need)}
 		if noMore {
@@ -176,6 +181,7 @@ func C06Alone(spec *gen.MsgSpec, cfg sut.Cfg, recv *sut.MsgD, buf []byte, start,
 		return fmt.Sprintf("in place (start %d) accepted with offset %d, alone = (%d,%d %q)", start, ret, aret, aerr, aerr)
 	}
 	var ra, rb sut.Rec
+	ra.MaskBuf, rb.MaskBuf = true, true
 	ra.Reset(start, len(buf))
 	rb.Reset(0, len(alone))
 	recv.Snap(&ra, buf)
